@@ -342,6 +342,30 @@ func (versionStream) Execute(c Case) {
 		if w, err := cdi.MinimumRequiredVersion(s); err != nil || w != v {
 			aux = append(aux, fmt.Sprintf("cdi.MinimumRequiredVersion = %q, %v; specs.MinimumRequiredVersion = %q", w, err, v))
 		}
+		// the Spec as a file: what the library parses from its JSON and YAML text requires the same version (nothing
+		// the file spells out - a hostPath equal to the path, an explicit false, an empty string - is dropped or added on the way in)
+		func() {
+			defer func() { _ = recover() }()
+			for _, enc := range []string{"json", "yaml"} {
+				var text []byte
+				var err error
+				if enc == "json" {
+					text, err = json.Marshal(s)
+				} else {
+					text, err = yaml3Marshal(s)
+				}
+				if err != nil {
+					continue
+				}
+				parsed, err := cdi.ParseSpec(text)
+				if err != nil || parsed == nil {
+					continue
+				}
+				if w, _ := specs.MinimumRequiredVersion(parsed); w != v {
+					aux = append(aux, fmt.Sprintf("MinimumRequiredVersion of the Spec parsed from its %s text is %q, of the Spec itself %q", enc, w, v))
+				}
+			}
+		}()
 		for i := 0; i < 4; i++ {
 			if w, _ := specs.MinimumRequiredVersion(s); w != v {
 				aux = append(aux, fmt.Sprintf("MinimumRequiredVersion is not repeatable: %q then %q", v, w))
